@@ -66,6 +66,12 @@ NEUTRAL = [
     dict(name='htlc_builder_reads_the_clock_once_more', file=TL, pids=['C15'],
          old="    if preimage and not digest:\n        digest = sha256(preimage).digest()",
          new="    time()\n    if preimage and not digest:\n        digest = sha256(preimage).digest()", count=2),
+    dict(name='certificate_signed_without_the_vm', file=TL, pids=['C14'],
+         old="    _, stack, _ = run_script(compile_script(f'''\n        push x{cert.preimage().hex()} push x{root_skey.hex()} sign_stack\n    '''))\n    assert len(stack) == 1\n    cert.signature = stack.get()\n    return cert",
+         new="    cert.signature = SigningKey(root_skey).sign(cert.preimage()).signature\n    return cert"),
+    dict(name='single_sig_lock_verifies_then_pushes_true', file=TL, pids=['C17', 'C18'],
+         old="    return Script.from_src(f'push x{pubkey.hex()} check_sig x{sigflags}')",
+         new="    return Script.from_src(f'push x{pubkey.hex()} check_sig_verify x{sigflags} true')"),
     dict(name='plugins_kept_in_a_copy_per_call', file=FN, pids=['C19'],
          old="    tape.plugins = {**_plugins, **plugins}\n    run_tape(tape, stack, cache, additional_flags=additional_flags)",
          new="    tape.plugins = {k: list(v) for k, v in {**_plugins, **plugins}.items()}\n    run_tape(tape, stack, cache, additional_flags=additional_flags)"),
